@@ -6,6 +6,7 @@ import (
 	"errors"
 	"fmt"
 	"io"
+	"os"
 	"strings"
 
 	jet "github.com/CloudyKit/jet/v6"
@@ -126,6 +127,10 @@ var errInjectedOpenWrapsRuntimeError = func() (err error) {
 	m["x"] = 1
 	return nil
 }()
+
+// InjectedPanicValue is what a loader with a bug of its own may panic with: not an error, not a string.
+type InjectedPanicValue struct{ Code int }
+
 var ErrInjectedRead = errors.New("INJ-read: simulated read failure")
 var ErrInjectedClose = errors.New("INJ-close: simulated close failure")
 
@@ -223,14 +228,26 @@ func (l *SimLoader) Open(p string) (io.ReadCloser, error) {
 		if f.k%4 == 3 && errInjectedOpenWrapsRuntimeError != nil {
 			return nil, errInjectedOpenWrapsRuntimeError
 		}
+		switch f.k % 4 {
+		case 2:
+			// "the file is not there" although Exists has just said it is (removed in between, or a loader
+			// whose two methods disagree): still this candidate's failure, not a reason to look further
+			return nil, &os.PathError{Op: "open", Path: "INJ-open:" + p, Err: os.ErrNotExist}
+		case 1:
+			return nil, fmt.Errorf("INJ-open: simulated loader failure: %w", io.EOF)
+		}
 		return nil, ErrInjectedOpen
 	}
 	if f := l.take(p, FaultPanic); f != nil && f.k%3 == 0 {
 		l.rec(Call{"Open", p, "panic"})
-		if f.k%2 == 0 {
+		switch (f.k / 3) % 3 {
+		case 0:
 			panic(ErrInjectedOpen)
+		case 1:
+			panic("INJ-open: the loader panicked with a string")
 		}
-		panic("INJ-open: the loader panicked with a string")
+		// neither an error nor a string: a value of a type of the loader's own
+		panic(InjectedPanicValue{Code: 7})
 	} else if f != nil {
 		rc, err := l.Inner.Open(p)
 		if err != nil {
